@@ -90,7 +90,7 @@ func (fr *Frame) callFunction(fv *FnVal, args []Val, resT types.Type, st *State,
 			if ct != nil && ct.Iterator {
 				for _, a := range args {
 					if a.Fn != nil {
-						if act := c.eng.contractOf(a.Fn.Fn); act != nil && len(act.clauses("iterinv")) > 0 {
+						if act := c.eng.contractOf(a.Fn.Fn); act != nil && len(act.clauses("iterinv"))+len(act.clauses("iterinner")) > 0 {
 							sub.iterFv = a.Fn
 						}
 					}
@@ -281,6 +281,12 @@ func (fr *Frame) callDynamic(cc *ssa.CallCommon, fv Val, args []Val, resT types.
 func (fr *Frame) invoke(cc *ssa.CallCommon, recv Val, args []Val, resT types.Type, st *State, reach string, pos token.Pos) Val {
 	c := fr.c
 	name := cc.Method.FullName()
+	if recv.Dyn != nil {
+		// devirtualise: the dynamic type of the receiver is known
+		if m := c.eng.prog.LookupMethod(recv.Dyn.T, cc.Method.Pkg(), cc.Method.Name()); m != nil && m.Blocks != nil {
+			return fr.callFunction(&FnVal{Fn: m}, append([]Val{recv.Dyn.V}, args...), resT, st, reach, pos)
+		}
+	}
 	if m := c.eng.invokeModel(name); m != nil {
 		return m(fr, recv, args, resT, st, reach, pos)
 	}
@@ -377,9 +383,16 @@ func (fr *Frame) builtin(b *ssa.Builtin, cc *ssa.CallCommon, args []Val, resT ty
 }
 
 func (c *FnCtx) mapLen(st *State, mt types.Type, m string) string {
-	_, _, ln, _, _ := c.mapHeaps(mt)
+	dn, _, ln, ks, _ := c.mapHeaps(mt)
 	t := c.smt.define("maplen", "Int", ite(eq(m, "0"), "0", sel(c.heapGet(st, ln, c.heapSorts[ln]), m)))
 	c.smt.assume(app(">=", t, "0"), "")
+	if !strings.Contains(m, "q.") {
+		// len(m) == 0 exactly when m has no keys
+		dom := sel(c.heapGet(st, dn, c.heapSorts[dn]), m)
+		w := c.smt.declareFresh("mapwitness", ks)
+		c.smt.assume(implies(eq(t, "0"), fmt.Sprintf("(forall ((k %s)) (! (not (select %s k)) :pattern ((select %s k))))", ks, dom, dom)), "len(m) == 0 means no keys")
+		c.smt.assume(implies(not(eq(t, "0")), sel(dom, w)), "len(m) != 0 means some key")
+	}
 	return t
 }
 
